@@ -57,6 +57,20 @@ PrefixIsError == IsCase => \A k \in 0..(Len(E) - 1) : ~DecTop(S, RootT, SubSeq(E
 \* the ideal decoder is total on every corruption (and, by construction, never
 \* "allocates" a count it has not checked against the remaining input)
 Inputs == IF Muts = "layout" THEN Mutations(E, Lay(S, RootT, V)) ELSE <<>>
+\* C05: two further records follow the case's value on the same stream, and the
+\* fragmentation patterns (caps on the bytes one Read may return, applied cyclically)
+Streams == Muts = "stream"
+AllVals == Vals(S, RootT)
+SeqVals == IF Streams THEN << Cyc(AllVals, vi + 1), Cyc(AllVals, vi + 2) >> ELSE <<>>
+SeqEncs == [i \in 1..Len(SeqVals) |-> Enc(S, RootT, SeqVals[i])]
+Frags == <<1, 2, 3, 5>>
+Patterns == IF ~Streams THEN <<>>
+            ELSE [i \in 1..4 |-> <<Frags[i]>>]
+              \o [i \in 1..16 |-> <<Frags[((i - 1) \div 4) + 1], Frags[((i - 1) % 4) + 1]>>]
+              \o (IF Tier = "thorough"
+                  THEN [i \in 1..64 |-> <<Frags[((i - 1) \div 16) + 1], Frags[(((i - 1) \div 4) % 4) + 1], Frags[((i - 1) % 4) + 1]>>]
+                  ELSE <<>>)
+
 \* what the as-is model predicts for each input (used to run only a sample of the
 \* inputs that are known to run away: each costs a watchdog timeout or an OOM kill)
 AllAllocDevs == {"alloc_before_check:arr", "alloc_before_check:map", "stream_trusts_count"}
@@ -80,5 +94,6 @@ Export ==
   /\ IsCase => PrintT("@@CASE " \o ToJson([sid |-> sid, vi |-> vi, opts |-> OptSetOfMask(MaskOf(oi)),
                                  mask |-> MaskOf(oi), root |-> "Root",
                                  v |-> V, enc |-> E, lay |-> Lay(S, RootT, V), inputs |-> Inputs,
-                                 predb |-> PredByte, preds |-> PredStream]))
+                                 predb |-> PredByte, preds |-> PredStream,
+                                 seq |-> SeqVals, seqenc |-> SeqEncs, scheds |-> Patterns]))
 =============================================================================
